@@ -83,7 +83,8 @@ def run(repo: str, tpl: str, out_dir: str, cfgs: List[str] = (), canary=False, s
     res.gen_path = gen_path
     t0 = time.time()
     try:
-        g = generate(repo, tpl, gen_path, canary=canary)
+        feats = [m.group(1) for c in cfgs for m in [re.match(r'feature="(.*)"$', c)] if m]
+        g = generate(repo, tpl, gen_path, canary=canary, features=feats)
     except (AnchorError, ShapeError, LexError) as e:
         res.fatal = "%s: %s" % (type(e).__name__, e)
         return res
